@@ -1,3 +1,5 @@
+import re
+import json
 import numpy as np
 
 from ..settings import Sign, EnvType, Format
@@ -46,32 +48,62 @@ class ExportConfig:
         """
         self.data = self.env.data(self.dtype, query=query, tags=tags)
 
+    def _parse_dip_scalar(self, param, value, element=False):
+        """ Text of a scalar value, or of one element of an array value
+        """
+        if isinstance(param, StringType):
+            if element:
+                # array values are read as JSON; quotes and backslashes are written as
+                # unicode escapes so that they cannot interfere with the quoting of DIP
+                value = re.sub(r'\\(["\\])', lambda m: "\\u%04x"%ord(m.group(1)), json.dumps(str(value)))
+                value = value.replace("'","\\u0027")
+            else:
+                # DIP reads \' and \" inside a quoted value as quote characters
+                value = str(value).replace("'","\\'").replace("\"","\\\"")
+                value = f"\"{value}\""
+        elif isinstance(param, BooleanType):
+            value = "true" if value else "false"
+        elif isinstance(param, IntegerType):
+            value = str(int(value))
+        elif isinstance(param, FloatType):
+            value = str(float(value))
+        return value
+
+    def _parse_dip_array(self, param, values):
+        strings = []
+        for value in values:
+            if isinstance(value,(np.ndarray,tuple,list)):
+                strings.append(self._parse_dip_array(param, value))
+            else:
+                strings.append(self._parse_dip_scalar(param, value, element=True))
+        return "[" + ",".join(strings) + "]"
+
     def parse(self):
         """ Default DIP parser
         """
         lines = []
         for name, param in self.data.items():
-            value = param.value
             if isinstance(param, StringType):
                 dtype = StringNode.keyword
-                # DIP reads \' and \" inside a quoted value as quote characters
-                value = str(value).replace("'","\\'").replace("\"","\\\"")
-                value = f"\"{value}\""
             elif isinstance(param, BooleanType):
                 dtype = BooleanNode.keyword
-                value = "true" if value else "false"
             elif isinstance(param, IntegerType):
                 dtype = IntegerNode.keyword
                 if param.unsigned:
                     dtype = "u"+dtype
                 if param.precision!=IntegerType.precision:
                     dtype += str(param.precision)
-                value = int(param.value)
             elif isinstance(param, FloatType):
                 dtype = FloatNode.keyword
                 if param.precision!=FloatType.precision:
                     dtype += str(param.precision)
-                value = float(param.value)
+            if isinstance(param.value,(np.ndarray,tuple,list)):
+                dtype += "[" + ",".join(str(s) for s in np.shape(param.value)) + "]"
+                value = self._parse_dip_array(param, param.value)
+                if isinstance(param, StringType):
+                    value = f"'{value}'"
+            else:
+                value = self._parse_dip_scalar(param, param.value)
             if param.unit:
                 lines.append(f"{name} {dtype} = {value} {param.unit}")
             else:
